@@ -67,6 +67,8 @@ UNRESOLVABLE = ['Foo', 'Unimod:999999', 'U:NoSuchName', 'MOD:99999999', 'Glycan:
                 'INFO:only information|Foo', '', 'Foo|', '|Foo', 'Foo|Bar']
 POSITIONS = ['PEP[{m}]TIDE', '[{m}]-PEPTIDE', 'PEPTIDE-[{m}]', '[{m}]?PEPTIDE', '{{{m}}}PEPTIDE', 'P(EP)[{m}]TIDE', '<[{m}]@P>PEPTIDE',
              'PEP[{m}]^2TIDE', 'PEP[Oxidation][{m}]TIDE']
+# charge adducts are modification values too: an adduct no table resolves
+ADDUCT_TEXTS = ['PEPTIDE/1[+Xx+]', 'PEPTIDE/2[+Na+,+Zz+]', 'PEPTIDE/1[+2Qq2+]', '[Acetyl]-PEPTIDE/1[-Xx-]']
 
 
 def case_deferred(inp):
@@ -85,6 +87,19 @@ def case_deferred(inp):
             return False, f'{name}: a ValueError-family error', f'{type(e).__name__}: {e}', None
         return False, f'{name} raises instead of counting the modification as zero', repr(r)[:80], None
     return True, None, None, ('deferred', inp['value'], inp['position'])
+
+
+def case_adduct(inp):
+    a = parse(inp['text'])
+    for name, f in (('mass', lambda: pt.mass(a.copy())), ('mass-avg', lambda: pt.mass(a.copy(), monoisotopic=False)), ('mz', lambda: pt.mz(a.copy()))):     # (comp() keeps the unknown symbol in the composition: not "counted as zero")
+        try:
+            r = f()
+        except ValueError:
+            continue
+        except Exception as e:  # noqa
+            return False, f'{name}: a ValueError-family error', f'{type(e).__name__}: {e}', None
+        return False, f'{name} raises for an unresolvable adduct', repr(r)[:80], None
+    return True, None, None, ('adduct', inp['text'])
 
 
 def fk_def(inp, exp, obs):
@@ -118,6 +133,9 @@ def run(rec, tier, seed):
             for var in variants:
                 inp = dict(text=''.join(var))
                 rec.guarded('parse-total', inp, lambda: case_parse(inp), fk_parse)
+    for t_ in ADDUCT_TEXTS:
+        inp = dict(text=t_, value=t_, position='adduct')
+        rec.guarded('deferred-validation-adducts', inp, lambda: case_adduct(inp), fk_def)
     # deferred validation
     for pos in POSITIONS:
         for val in UNRESOLVABLE:
@@ -144,7 +162,7 @@ def run(rec, tier, seed):
 def main():
     a = args()
     if a.replay:
-        replay_main(a, {'parse-total': case_parse, 'deferred-validation': case_deferred})
+        replay_main(a, {'parse-total': case_parse, 'deferred-validation': case_deferred, 'deferred-validation-adducts': case_adduct})
     rec = Recorder('C09-bounded',
                    'every string of up to L tokens over a 30-token notation alphabet (residues, every bracket, ? - + / ^ @ # | : , . digits, '
                    'a known modification name, backslash, space), seeded samples of L+1 / L+2 tokens and of 6..40 tokens, every '
